@@ -363,13 +363,17 @@ def rule_N4(ctx):
     sm = ctx.repo.mod(SURV)
     fn = sm.method('Survey', 'select')
     sv = find('_s_ = self.to_dict()', fn)
-    lp = [n for n in fn.body if isinstance(n, ast.For) and
-          find('_s_[\'data\'][_k_] = self.data[_k_].sel(**_sel_)', n)]
-    ctx.anchor(len(sv) == 1 and len(lp) == 1, 'survey dict and data loop in '
-               'select()')
+    ctx.anchor(len(sv) == 1, 'survey dict in select()')
     S = sv[0][1]['_s_']
-    m = find(f"{S}['data'][_k_] = self.data[_k_].sel(**_sel_)", lp[0])
-    SEL = m[0][1]['_sel_']
+    lp = [n for n in fn.body if isinstance(n, ast.For) and
+          has(f"{S}['data'].keys()", n.iter)]
+    ctx.anchor(len(lp) == 1, 'loop over the data variables in select()')
+    sels = [n for n in fn.body if isinstance(n, ast.Assign) and isinstance(
+        n.value, ast.Dict) and not n.value.keys and isinstance(
+            n.targets[0], ast.Name)]
+    ctx.anchor(len(sels) == 1, 'selection dictionary in select()')
+    SEL = sels[0].targets[0].id
+    m = find(f"{S}['data'][_k_] = self.data[_k_].sel(**{SEL})", lp[0])
     pairs = {'sources': 'src', 'receivers': 'rec', 'frequencies': 'freq'}
     for par, dim in pairs.items():
         ifs = [n for n in fn.body if isinstance(n, ast.If) and
@@ -382,8 +386,8 @@ def rule_N4(ctx):
                   f'the list filtering `{par}` and the list selecting '
                   f'dimension `{dim}` of the data are not the same',
                   ctx.where(sm, ifs[0]), sample={'param': par, 'dim': dim})
-    ok = has(f"{S}['data'].keys()", lp[0].iter) and \
-        m[0][1]['_k_'] == ast.unparse(lp[0].target)
+    ok = len(m) == 1 and m[0][1]['_k_'] == ast.unparse(lp[0].target) and \
+        any(m[0][0] is x for x in lp[0].body)
     ctx.check('C13.N4.select', 'select: every data variable .sel(**selection)',
               ok, 'not every data variable is cut with the one selection',
               ctx.where(sm, lp[0]))
